@@ -17,3 +17,22 @@ package midi
 //@   ensures [C06] val == 1.0 ==> result[1] == 127 && result[2] == 127
 //@   ensures [C06] val == -1.0 ==> result[1] == 0 && result[2] == 0
 //@   modifies nothing
+
+// ---- accessors used by the MIDI-input tracking (C17)
+//@ func (Event).Type
+//@   ensures [C17] len(e) == 0 ==> result == 0
+//@   ensures [C17] len(e) > 0 ==> result == (if e[0] & 0xF0 != 0xF0 && e[0] & 0x80 != 0 then e[0] & 0xF0 else e[0])
+//@   safety [C17]
+//@   modifies nothing
+
+//@ func (Event).Channel
+//@   ensures [C17] len(e) > 0 ==> result == e[0] & 0x0F
+//@   safety [C17]
+//@   modifies nothing
+
+// Note indexes e[1] after excluding only the empty message: complete messages are a precondition (environment, see handleInputEvents)
+//@ func (Event).Note
+//@   requires len(e) == 0 || len(e) >= 2
+//@   ensures [C17] len(e) > 0 ==> result == e[1]
+//@   safety [C17]
+//@   modifies nothing
